@@ -305,7 +305,7 @@ def gen_mods(rng, tree, n=None):
     return mods
 
 
-def gen_read(rng, tree, systems, hot=None):
+def gen_read(rng, tree, systems, hot=None, pool=None):
     """hot: (path, dates) recently touched by a write — reads are biased to land there."""
     leaves = PW.leaf_paths(tree)
     sysid = pick(rng, systems)
@@ -315,12 +315,14 @@ def gen_read(rng, tree, systems, hot=None):
             path, date = hot[0], pick(rng, hot[1])
         else:
             path = pick(rng, leaves)
-            date = PW.rand_date(rng)
+            date = pick(rng, pool) if pool and chance(rng, 0.4) else PW.rand_date(rng)
         route = pick(rng, ["a", "a", "a_instant", "a_period", "a_year", "c", "d"])
         if route == "a_year" and chance(rng, 0.7):
             date = date[:4] + "-01-01"
         return ["read", sysid, route, list(path), date]
-    date = PW.rand_date(rng, 2005, 2021)
+    # a few instants per scenario are read again and again, on every system: what
+    # one tree showed at an instant must not decide what another tree shows there
+    date = pick(rng, pool) if pool and chance(rng, 0.7) else PW.rand_date(rng, 2005, 2021)
     kind = weighted(rng, [("str", 3), ("enum", 2), ("enumarray", 2), ("nested", 2), ("date", 4)])
     route = pick(rng, ["a", "a", "c", "d"])
     if kind == "date":
@@ -351,6 +353,7 @@ def c07_generate(seed: int, tier: str) -> dict:
     ops = []
     hot = None
     recent_reads = []
+    pool = [PW.rand_date(orr, 2009, 2020) for _ in range(3)]
     n_ops = orr.randint(5, 12 if tier == "quick" else 24)
     for _ in range(n_ops):
         r = orr.random()
@@ -384,7 +387,7 @@ def c07_generate(seed: int, tier: str) -> dict:
             ops.append({"actor": "W", "do": ["load_parameters", pick(orr, systems), pick(orr, ["T0", "T1"]), orr.randrange(1 << 30)]})
             hot = None
         else:
-            rd = gen_read(orr, tree, systems, hot)
+            rd = gen_read(orr, tree, systems, hot, pool)
             ops.append({"actor": pick(orr, ["R1", "R2"]), "do": rd})
             if rd[0] == "read":
                 recent_reads.append((rd[1], tuple(rd[3]), rd[4]))
